@@ -288,7 +288,7 @@ def gen_case(draw, tier):
 	if which == 'cli_info':
 		return {'kind': 'cli_info', 'payload': draw(P.payload(max_sigs=6))}
 	if which == 'roundtrip':
-		return {'kind': 'roundtrip', 'payload': draw(P.payload()), 'idx_seed': draw(st.integers(0, 2 ** 20))}
+		return {'kind': 'roundtrip', 'payload': draw(P.payload(allow_big=(tier == 'thorough'))), 'idx_seed': draw(st.integers(0, 2 ** 20))}
 	ext = draw(st.sampled_from(['.gs', '.h5', '.txt', '.fasta', '']))
 	if which == 'foreign_bytes':
 		mode = draw(st.sampled_from(['raw', 'raw', 'valid_prefix', 'magic_plus', 'valid_truncated', 'valid_corrupt', 'gzip']))
